@@ -434,6 +434,13 @@ fn cmd_gen(args: &[String]) -> i32 {
 fn main() {
     let args: Vec<String> = std::env::args().collect();
     // fork the pristine-oracle zygote while this process is single-threaded and has run no regress code
+    // pin first: the zygote and its grandchildren inherit the affinity, so a query is a
+    // same-CPU context switch instead of an idle-vCPU wake-up
+    if let Some(c) = arg(&args, "--cpu").and_then(|s| s.parse::<usize>().ok()) {
+        driver::pin_to_cpu(c);
+    } else if matches!(args.get(1).map(|s| s.as_str()), Some("replay") | Some("shrink") | Some("gen")) {
+        driver::pin_to_cpu(0);
+    }
     if matches!(args.get(1).map(|s| s.as_str()), Some("worker") | Some("replay") | Some("shrink") | Some("gen")) && std::env::var("VERIF_NO_PRISTINE").is_err() {
         simcore::pristine::start(simcore::run::pristine_handler);
     }
